@@ -184,12 +184,21 @@ theorem C03_request_line {β : Type} (originPrefix originPath path : Bytes) (q :
     getAll (str "te") r.headers = [(str "trailers", false)] ∧
     getAll Interceptor.nameContentType r.headers = [(Interceptor.grpcContentType, false)] ∧
     r.body = t.message ∧
-    r.uri = originPrefix ++ (if originPath.isEmpty || (originPath == str "/" && !q) then path
+    r.uri = originPrefix ++ (if originPath.isEmpty || originPath == str "/" then path
                              else originPath ++ path) := by
   have hne : str "te" ≠ Interceptor.nameContentType := by decide
   simp only [Interceptor.prepareRequest, Interceptor.intoHttp, true_and, and_true]
   refine ⟨?_, getAll_insert_self _ _ _⟩
   rw [getAll_insert_ne _ _ _ _ hne, getAll_insert_self]
+
+/-- The path join as found at the pinned commit was wrong for an origin whose path is `/` and that
+has a query (`http://host/?x=1`): the request went to `//pkg.Svc/Method` instead of the method's
+path.  (Witness of the defect repaired by the `fix:` commit "an origin whose path is / adds no prefix
+…"; the case `req g - 3f71 …` — origin `?q` — is in C03's generated cases.) -/
+theorem C03_request_path_root_origin_with_query_asis_fails :
+    Interceptor.pathJoinAsFound (str "/") true (str "/pkg.Svc/Method") = str "//pkg.Svc/Method" ∧
+    Interceptor.pathJoinAsFound (str "/") true (str "/pkg.Svc/Method") ≠ str "/pkg.Svc/Method" := by
+  decide
 
 /-- **A trailers-only response carries `content-type: application/grpc`, is HTTP 200, has an
 empty body and exactly one `grpc-status`, in its headers**: `Status::into_http` never fails, and
